@@ -583,9 +583,14 @@ Proof.
   clearbody n1.
   set (n2 := match last (map Some (n_snaps n1)) None with Some s => _ | None => n1 end).
   assert (H2 : tvf n2 = tvf n1) by (subst n2; destruct (last (map Some (n_snaps n1)) None); reflexivity).
-  clearbody n2. destruct (conf_scan _ _ _) as [c cc].
-  assert (H3 : tvf (n2 <| n_conf := c |> <| n_cconf := cc |>) = tvf n2) by reflexivity.
-  rewrite H3, H2. exact H1.
+  clearbody n2.
+  set (n3 := match last (map Some (n_snaps n1)) None with Some s => _ | None => n2 end).
+  assert (H2' : tvf n3 = tvf n2).
+  { subst n3. destruct (last (map Some (n_snaps n1)) None) as [s|]; [|reflexivity].
+    destruct (_ || _); reflexivity. }
+  clearbody n3. destruct (conf_scan _ _ _) as [c cc].
+  assert (H3 : tvf (n3 <| n_conf := c |> <| n_cconf := cc |>) = tvf n3) by reflexivity.
+  rewrite H3, H2', H2. exact H1.
 Qed.
 
 Lemma S_restart now n : S n (restart_after_crash now n).
